@@ -2,11 +2,18 @@
    Full statement: for the document d = write_doc g U inc, read through its own namespace table, the declared nodes are
    exactly g's nodes in U (each once, with attributes and value) and the declared references are exactly g's references with
    an endpoint in U (inc = true) / those minus the dropped ones (inc = false).
-   C06_partial: proved below are the reference-filter rule (what inc = false drops, exactly), that nothing is dropped with
-   inc = true, and the error for an unknown namespace; the node/reference placement part of the statement is decided by the
+   Proved below: the reference-filter rule (what inc = false drops, exactly; nothing with inc = true); the error for an unknown
+   namespace; and, under the regularity conditions `regular` (namespace list without repetition, indices in range, the written
+   namespace non-empty and namespace 0 in use - the last two are exactly the negations of the recorded findings
+   'empty-namespace' and 'namespace-without-base-use'): C06_written_rows_exact - the rows that become node elements are exactly
+   the graph's nodes of namespace U, once each, in table order; C06_node_elements - each carries its node class and the NodeId
+   ns=1;<same identifier>; C06_first_uri - index 1 of the document's own table is U (and the Model element names U), so that
+   NodeId resolves to (U, identifier).  `regular` has a proved-sound decision procedure which the runner evaluates on every
+   generated case.
+   C06_partial: the placement of the REFERENCE elements and the attribute list of a node element are decided by the
    correspondence run (model document = lxml reading of the written text) and by the independent-reader oracle. *)
 From Coq Require Import String Ascii List Bool Arith NArith ZArith.
-Require Import PyStr PyInt Sexp Xml M_C09 M_C08 Ns Table M_Parse M_Write T_Write.
+Require Import PyStr PyInt Sexp Xml M_C09 M_C08 Ns Table M_Parse M_Write T_Write T_Write2.
 Import ListNotations.
 Open Scope char_scope.
 
@@ -24,7 +31,27 @@ Theorem C06_header : forall p w d, write_doc p w = Ok d ->
   (exists attrs req, d_models d = Some [{| me_attrs := (lit "ModelUri", u1) :: attrs; me_required := req |}]) /\ d_aliases d = Some [].
 Proof. exact write_doc_header. Qed.
 
+Theorem C06_written_rows_exact : forall p k refs, regular p k refs ->
+  map (fun x : wrow => fst (fst x)) (w_written p k (w_in_use p k refs)) = filter (fun r => Z.eqb (nid_ns (nr_nodeid r)) (Z.of_nat k)) (p_nodes p).
+Proof. exact written_rows_exact. Qed.
+Theorem C06_node_elements : forall p w d k refs,
+  str_index (wp_uri w) (p_namespaces p) = Some k -> use_refs p w (Z.of_nat k) = Ok refs -> regular p k refs -> write_doc p w = Ok d ->
+  map (fun e => (ne_cls e, hd_error (ne_attrs e))) (d_nodes d)
+  = map (fun r => (nr_cls r, Some (lit "NodeId", print_nodeid (with_nid_ns (nr_nodeid r) 1))))
+        (filter (fun r => Z.eqb (nid_ns (nr_nodeid r)) (Z.of_nat k)) (p_nodes p)).
+Proof. exact T_Write2.C06_node_elements. Qed.
+Theorem C06_first_uri : forall p w d k refs,
+  str_index (wp_uri w) (p_namespaces p) = Some k -> use_refs p w (Z.of_nat k) = Ok refs -> regular p k refs -> write_doc p w = Ok d ->
+  exists rest attrs req, d_uris d = Some (wp_uri w :: rest) /\ d_models d = Some [{| me_attrs := (lit "ModelUri", wp_uri w) :: attrs; me_required := req |}].
+Proof. exact T_Write2.C06_first_uri. Qed.
+Theorem C06_regular_decidable : forall p k refs, regular_b p k refs = true -> regular p k refs.
+Proof. exact regular_b_sound. Qed.
+
 Print Assumptions C06_refs_all.
 Print Assumptions C06_refs_filtered.
 Print Assumptions C06_unknown_namespace.
 Print Assumptions C06_header.
+Print Assumptions C06_written_rows_exact.
+Print Assumptions C06_node_elements.
+Print Assumptions C06_first_uri.
+Print Assumptions C06_regular_decidable.
